@@ -587,6 +587,18 @@ def simplify_term(t):
             if ne != e:
                 rest = Term(t.coef, t.bound, facs[:i] + facs[i + 1:] + [(a, ne)])
                 return simplify_term(rest)
+    if CONST_INPUTS and any(a[0] == "E" and a[1] in CONST_INPUTS for a, _ in t.facs):
+        coef2 = t.coef
+        nf = []
+        for a, e in t.facs:
+            if a[0] == "E" and a[1] in CONST_INPUTS:
+                c = Fraction(CONST_INPUTS[a[1]])
+                if e.denominator != 1:
+                    raise EngineError("fractional power of a constant input")
+                coef2 = coef2 * c ** int(e)
+            else:
+                nf.append((a, e))
+        return simplify_term(Term(coef2, t.bound, nf))
     # hypothesis rewriting first (before concrete-size expansion destroys the contraction pattern)
     if t.bound and (FACTORISATIONS or ORTHO):
         d0 = dict(t.facs)
@@ -790,6 +802,8 @@ ORTHO = {}
 # exact-factorisation hypotheses: list of (chain, M) with chain = (Uname, Vname) meaning sum_k U[i,k] V[k,j] = M[i,j]
 # or chain = (Uname, Sname, Vname) meaning sum_k U[i,k] S[k] V[k,j] = M[i,j];  M = (axes_i_var, axes_j_var, body Expr)
 FACTORISATIONS = []
+# path facts: name -> constant, every entry of that symbolic input equals the constant on the current path
+CONST_INPUTS = {}
 
 
 def term_key(t, ren, depth, want_ren=False):
@@ -907,7 +921,7 @@ def expr_key(expr, ren=None, depth=0):
     ren = ren or {}
     if depth > 0 and current_ctx() is None or depth > 0:
         fv = expr.free_vars()
-        ck = (expr.skey(), tuple(sorted((v, ren.get(v)) for v in fv)), depth, RULES["sign_sq_one"], len(ORTHO))
+        ck = (expr.skey(), tuple(sorted((v, ren.get(v)) for v in fv)), depth, RULES["sign_sq_one"], tuple(sorted(ORTHO.items())), len(FACTORISATIONS), tuple(sorted(CONST_INPUTS.items())))
         hit = _KEY_CACHE.get(ck)
         if hit is not None:
             return hit
